@@ -161,22 +161,6 @@ example : phaseRun legalBasicNoSuppClear ⟨false, false⟩ .U
 
 /-! ### on_synced exactly once, with the state of that moment -/
 
-theorem specCbs_not_synced (sp : Option AMap) (d : Bool) (n : Note) (hn : n ≠ .synced) (m : AMap) :
-    Cb.syncedM m ∉ specCbs sp d n := by
-  cases n with
-  | linked => simp [specCbs]
-  | synced => exact absurd rfl hn
-  | unlinked => simp [specCbs]
-  | ev e =>
-    cases e with
-    | update k v => cases d <;> simp [specCbs, cbIf]
-    | remove k =>
-      simp only [specCbs]
-      cases look k (sp.getD []) <;> cases d <;> simp [cbIf]
-    | clear => cases d <;> simp [specCbs, cbIf]
-    | take n => simp [specCbs]
-    | drop n => simp [specCbs]
-
 /-- **on_synced (hosted):** after any legal prefix, a legal `synced` notification fires `on_synced` exactly once and hands
 it the fold of that moment; no other legal notification fires `on_synced`. -/
 theorem C08_hosted_on_synced_exactly_once_with_state_of_that_moment (c : Cfg) (pre : List Note) (n : Note)
@@ -292,12 +276,63 @@ theorem C08_value_synced_without_value_differs :
     ((VClient.run ⟨false, false⟩ {} (vnotes [.linked, .synced])).1.fin,
      (VHosted.run ⟨false, false⟩ {} (vnotes [.linked, .synced])).1.fin) = (some .syncedNoValue, none) := by decide
 
+/-! ### take / drop (T2) -/
+
+/-- **Hosted map downlink, all five messages:** removing the sorted key suffix / prefix one key at a time (what
+`MapDlState::take/drop` do with `drop_or_take`) is `take` / `drop` of the fold; so the replica is the fold on *every*
+legal sequence, both settings. -/
+theorem C08_hosted_state_is_fold_all_messages (c : Cfg) (ns : List Note) (p : Phase)
+    (h : phaseRun legalAll c .U ns = some p) :
+    (MHosted.run c {} (notes ns)).1.map = (specRun none ns).getD [] := by
+  have hrel := relH_run_all (R := legalAll) c ns relH_init sortedK_nil h
+  cases p with
+  | U => obtain ⟨hs, hsp⟩ := hrel; rw [hs, hsp]; rfl
+  | L => obtain ⟨_, _, hsp⟩ := hrel; rw [hsp]; rfl
+  | S => obtain ⟨_, _, hsp⟩ := hrel; rw [hsp]; rfl
+  | E => obtain ⟨_, hm, hsp⟩ := hrel; rw [hm, hsp]; rfl
+
+example : phaseRun legalAll ⟨false, false⟩ .U
+    [.linked, .ev (.update 3 1), .ev (.update 1 10), .ev (.update 2 5), .ev (.take 2), .synced, .ev (.drop 1), .ev (.drop 7)]
+    = some .S := by decide
+
+/-- **on_synced (hosted), all five messages:** a legal `synced` fires `on_synced` once with the fold of that moment. -/
+theorem C08_hosted_on_synced_with_state_of_that_moment_all_messages (c : Cfg) (pre : List Note)
+    (h : phaseRun legalAll c .U pre = some .L) :
+    ((MHosted.run c {} (notes pre)).1.step c (.note .synced)).2 = [.syncedM ((specRun none pre).getD [])] := by
+  obtain ⟨_, hfin, hsp⟩ := relH_run_all (R := legalAll) c pre relH_init sortedK_nil h
+  simp [MHosted.step, hNext, hfin, hsp]
+
+/-- **client replica = hosted replica, all five messages**, both settings, outside F5. -/
+theorem C08_client_eq_hosted_state_all_messages_partial (c : Cfg) (ns : List Note) (p : Phase)
+    (h : phaseRun legalNoSuppClear c .U ns = some p) (hE : p ≠ .E) :
+    (MClient.run c {} (notes ns)).1.st.replica.getD [] = (MHosted.run c {} (notes ns)).1.map := by
+  have rc := relC_run (R := legalNoSuppClear) rfl c ns relC_init h
+  have rh := relH_run_all (R := legalNoSuppClear) c ns relH_init sortedK_nil h
+  cases p with
+  | U => obtain ⟨hs, _⟩ := rc; obtain ⟨hs', _⟩ := rh; rw [hs, hs']; rfl
+  | L => obtain ⟨m, hs, hsp⟩ := rc; obtain ⟨_, _, hsp'⟩ := rh; rw [hs]; rw [hsp] at hsp'; simpa [CSt.replica] using hsp'
+  | S => obtain ⟨m, hs, hsp⟩ := rc; obtain ⟨_, _, hsp'⟩ := rh; rw [hs]; rw [hsp] at hsp'; simpa [CSt.replica] using hsp'
+  | E => exact absurd rfl hE
+
+/-- The callback *shapes* of `take` / `drop` differ between the implementations (recorded as F5b): the client fires
+`on_remove` although callbacks are suppressed, and its `drop` shows `on_remove` the empty map. -/
+theorem C08_take_drop_callbacks_differ :
+    (MClient.run ⟨false, true⟩ {} (notes [.linked, .ev (.update 1 10), .ev (.update 2 20), .ev (.take 1)])).2
+      = [[.linked], [], [], [.remove 2 20 [(1, 10)]]] ∧
+    (MHosted.run ⟨false, true⟩ {} (notes [.linked, .ev (.update 1 10), .ev (.update 2 20), .ev (.take 1)])).2
+      = [[.linked], [], [], []] ∧
+    (MClient.run ⟨true, true⟩ {} (notes [.linked, .ev (.update 1 10), .ev (.update 2 20), .ev (.drop 1)])).2
+      = [[.linked], [.update 1 none 10 [(1, 10)]], [.update 2 none 20 [(1, 10), (2, 20)]], [.remove 1 10 []]] ∧
+    (MHosted.run ⟨true, true⟩ {} (notes [.linked, .ev (.update 1 10), .ev (.update 2 20), .ev (.drop 1)])).2
+      = [[.linked], [.update 1 none 10 [(1, 10)]], [.update 2 none 20 [(1, 10), (2, 20)]], [.remove 1 10 [(2, 20)]]] := by
+  decide
+
 /-! ### statements not yet proved -/
 
-/-- hosted `take` / `drop` (removal of the sorted key suffix / prefix one key at a time) is `List.take` / `List.drop`
-on the sorted association list, hence `C08_hosted_state_is_fold` for all five messages. -/
-def C08_hosted_state_is_fold_all_messages_open : Prop :=
-  ∀ (c : Cfg) (ns : List Note) (p : Phase), phaseRun legalAll c .U ns = some p →
-    (MHosted.run c {} (notes ns)).1.map = (specRun none ns).getD []
+/-- the callback trace of the hosted downlink for `take` / `drop` is the sequential-removal shape of the monitor
+(`refRemoveSeq`), resp. one `on_clear` for `drop n ≥ len`. -/
+def C08_hosted_take_drop_callback_shape_open : Prop :=
+  ∀ (m : AMap) (n : Nat), SortedK m → n < m.length →
+    (hEvent m (.take n) true).2 = refRemoveSeq m (m.drop n) ∧ (hEvent m (.drop n) true).2 = refRemoveSeq m (m.take n)
 
 end SwimVerif.Dl
